@@ -116,6 +116,34 @@ CHECKS = {
              "error); parsing+valid requests are also compared with the execution model inside Coq.",
         note="Trusted: parser stand-in (which texts are syntax errors, reported locations), Coq kernel, harness.",
         design="4 C18"),
+    "C16": dict(
+        technique="Coq invariant proof over the cache state machine (all histories, all configurations) + differential "
+                  "histories against a fresh uncached engine",
+        text="Cache.v models functools.lru_cache in front of parse_and_validate_query (disabled / unbounded / capacity n "
+             "with LRU eviction). Invariant `every cached entry is what parsing its key returns` proved for init and "
+             "preserved by every call; lifted by induction over the request list: any history through any configuration "
+             "returns, position by position, what the uncached function returns, also after any earlier history; hence "
+             "responses are a function of the uncached parse. The hypothesis (equal keys denote the same text+schema, "
+             "documents are not mutated) is tied to /repo by sending request histories (valid, invalid, broken, same "
+             "text with other variables/operation names, multi-operation documents with different variable "
+             "signatures, str/bytes) to engines with 5 cache configurations and comparing every position with a fresh "
+             "uncached engine, plus a structural fingerprint of the cached DocumentNode before/after every request.",
+        note="Trusted: Coq kernel, harness; GraphQLSchema.__eq__/__hash__ and lru_cache itself are not verified.",
+        design="4 C16"),
+    "C17": dict(
+        technique="Coq projection theorem over the registry state machine (all interleavings) + fresh-process differential",
+        text="Registry.v models SchemaRegistry (process-global dict keyed by schema name; per-kind registration with "
+             "duplicate refusal; register_sdl; cook reads the entry of its name). Theorem C17_projection, by induction "
+             "on the operation history: what the operations about name n observe (registration errors, the "
+             "implementations and SDL cook reads) equals what they observe when every other name's operations are "
+             "removed -- for every finite history and interleaving. Tied to /repo by registering and cooking 2-4 "
+             "bundles with overlapping type/field/scalar/directive/subscription names in every interleaving (exhaustive "
+             "for pairs in thorough, sampled otherwise), each in a fresh process, and comparing each co-resident "
+             "engine's answers (queries, introspection, a subscription, two rounds) and its registry entry with the "
+             "same bundle built alone in a fresh process. PARTIAL: import caching of user modules is runtime.",
+        note="Trusted: Coq kernel, harness; state kept on type objects outside the registry is covered only by the "
+             "differential runs.",
+        design="4 C17"),
 }
 
 NOT_YET = {
